@@ -83,6 +83,11 @@ def run_batch(sh, batch, syntax):
         if len(sh.samples) < 3:
             sh.sample({'line': line, 'syntax': syntax, 'candidates': [b.hex() for b in c[:4]], 'gas': g.hex() if g else msg[:60]})
         fam = 'MMX-SSE' if mn in SSE_NAMES() else mn
+        if fam == 'MMX-SSE' and re.search(r'mm|m64|m128', shape):
+            # SIMD operand shapes: one key per mnemonic (a family-wide key would hide a newly broken row), except for the one
+            # mechanism that hits the whole family: the vocabulary is the cross product of templates (andnss, movass, movmskpREPNZ ...)
+            # and of operand classes (mm operands for xmm-only rows), so lines the architecture does not have are assembled
+            fam = ('MMX-SSE:' + mn) if g else 'MMX-SSE+line-rejected-by-reference'
         keybase = '%s/%s/%s' % (syntax, fam, shape)
         items = per.get(i, [])
         if len(items) != len(c):
